@@ -57,7 +57,7 @@ package workceptor
 
 //@ monitor (w *Workceptor) workTypesLock
 //@   protects workTypes
-//@   inv WT: forall k string :: (k in w.workTypes) ==> w.workTypes[k] != nil
+//@   inv WT: forall k string :: (k in w.workTypes) ==> w.workTypes[k] != nil && w.workTypes[k].newWorkerFunc != nil
 
 //@ iface NetceptorForWorkceptor.NodeID
 //@   pure
@@ -174,3 +174,71 @@ package workceptor
 //@   tags C08
 //@   safety
 //@   requires t != nil
+
+// ---- C13: unit IDs are unique, release removes the unit
+
+//@ immutable Workceptor.activeUnitsLock, Workceptor.workTypesLock, Workceptor.dataDir, Workceptor.nc
+//@ monitor (w *Workceptor) activeUnitsLock
+//@   protects activeUnits
+//@   inv AU: w.activeUnits != nil
+
+//@ func functype NewWorkerFunc
+//@   params fn, bwu, w, unitID, workType
+//@   modifies nothing
+//@   ensures NEWWORKER: result != nil
+
+// generateUnitID: the ID is not a key of activeUnits (state in which it was tested: the caller's critical section
+// when lock is false) and the directory created for it did not exist before.
+//@ func (*Workceptor).generateUnitID
+//@   tags C13
+//@   requires w != nil
+//@   requires LOCKED: lock ? held(w.activeUnitsLock) == 0 : held(w.activeUnitsLock) == 2
+//@   nolockif !lock
+//@   site call MkdirAll NEWDIR: [C13] requires lastcall("Stat", 1) != nil && arg0 == unitdir && !(ident in w.activeUnits)
+//@   site call Stat SAMEDIR: [C13] requires arg0 == unitdir
+//@   site call MkdirAll DIRNAME: [C13] requires arg0 == path.Join2(w.dataDir, ident)
+//@   ensures FRESHID: [C13] !lock && result.1 == nil ==> !(result.0 in w.activeUnits)
+
+// AllocateUnit: generation of the ID and its insertion are one critical section under the write lock, the key
+// inserted is the generated ID and it is not yet a key.
+//@ func (*Workceptor).AllocateUnit
+//@   tags C13 C19
+//@   requires w != nil
+//@   site mapupdate Workceptor.activeUnits UNIQUE: [C13] requires !(key in w.activeUnits) && key == lastcall("generateUnitID", 0) && lastcall("generateUnitID", 1) == nil
+//@        && held(w.activeUnitsLock) == 2 && value == worker && lastcall("Save", 0) == nil
+//@   site call generateUnitID INSIDE: [C13] requires held(w.activeUnitsLock) == 2 && !arg1
+
+// BaseWorkUnit.Release: a nil result means the directory was removed (or removal was forced) and the unit's own ID
+// is no longer a key of activeUnits.
+//@ immutable BaseWorkUnit.w, BaseWorkUnit.unitID, BaseWorkUnit.fs, BaseWorkUnit.statusLock, BaseWorkUnit.unitDir
+//@ func (*BaseWorkUnit).Release
+//@   tags C13
+//@   requires bwu != nil && bwu.w != nil && bwu.fs != nil && bwu.statusLock != nil
+//@   ghostflag forgotten set delete:Workceptor.activeUnits
+//@   site delete Workceptor.activeUnits OWNID: [C13] requires key == bwu.unitID && (force || lastcall("RemoveAll", 0) == nil)
+//@   ensures REMOVED: [C13] result == nil ==> flag("forgotten") && (force || lastcall("RemoveAll", 0) == nil)
+//@   ensures KEPT: [C13] result != nil ==> !flag("forgotten")
+//@   loop for
+//@     invariant NOTYET: !flag("forgotten")
+
+// ---- C04 / C08: looking a unit up never blocks; a unit found on disk is registered under its directory name
+
+//@ func (*Workceptor).findUnit
+//@   tags C04 C08
+//@   safetytags C04 C08
+//@   safety
+//@   requires w != nil && w.nc != nil
+
+//@ func newUnknownWorker
+//@   ensures NONNIL: result != nil
+//@ iface NetceptorForWorkceptor.GetLogger
+//@   params nc
+//@   pure
+//@   ensures NONNIL: result != nil
+
+//@ func (*Workceptor).scanForUnit
+//@   tags C04 C13
+//@   safetytags C04 C08
+//@   safety
+//@   requires w != nil && w.nc != nil
+//@   site mapupdate Workceptor.activeUnits RESCAN: [C13 C04] requires held(w.activeUnitsLock) == 2 && key == ident && value == worker && worker != nil
